@@ -3,6 +3,7 @@ module verif
 go 1.25
 
 require (
+	github.com/gogo/protobuf v1.3.2
 	github.com/zeebo/errs v1.2.2
 	google.golang.org/protobuf v1.27.1
 	pgregory.net/rapid v1.3.0
